@@ -140,6 +140,13 @@ func vfEntries(cmds map[uint64]vfStep, from, last uint64) string {
 
 // ---- stores
 
+// vfNewClusterStore: raft's default timeouts (a leader must not lose its lease on a loaded machine)
+func vfNewClusterStore(id, dir string, fk bool, ln net.Listener) *Store {
+	s := vfNewStore(id, dir, fk, ln)
+	s.HeartbeatTimeout, s.ElectionTimeout, s.LeaderLeaseTimeout = 0, 0, 0
+	return s
+}
+
 func vfNewStore(id, dir string, fk bool, ln net.Listener) *Store {
 	cfg := NewDBConfig()
 	cfg.FKConstraints = fk
